@@ -121,6 +121,7 @@ type HarnessConfig struct {
 	Merge           bool
 	BranchSolver    string
 	Tier            string
+	ExploreSeconds  int
 	Lazy            bool
 }
 
@@ -156,6 +157,9 @@ func RunHarness(l *Loaded, fn *ssa.Function, cfg HarnessConfig) (res *HarnessRes
 	e.Trace = cfg.Trace
 	e.Merge = cfg.Merge
 	e.Tier = cfg.Tier
+	if cfg.ExploreSeconds > 0 {
+		e.Deadline = time.Now().Add(time.Duration(cfg.ExploreSeconds) * time.Second)
+	}
 	e.Lazy = cfg.Lazy
 	if cfg.Unwind > 0 {
 		e.Unwind = cfg.Unwind
